@@ -1,14 +1,17 @@
 #!/bin/bash
 # Re-runs every stored seeded change against the checks of the properties it breaks (meta.json: property +
 # breaks) with the current machinery and writes seeded/MATRIX.md. Applies each patch to /repo and restores it.
-cd /verif
-OUT=seeded/MATRIX.md
+REPO=${REPO:-/repo}
+VERIF=${VERIF:-/verif}
+cd $VERIF
+OUT=${OUT:-seeded/MATRIX.md}
 echo "# seeded changes x checks (quick tier), $(date -u +%F), /verif $(git rev-parse --short HEAD)" > $OUT
+[ -n "${SEEDS:-}" ] || SEEDS=$(ls -d seeded/*/ | xargs -n1 basename)
 echo >> $OUT
 echo "| seed | check | outcome |" >> $OUT
 echo "|---|---|---|" >> $OUT
-for d in seeded/*/; do
-  id=$(basename $d)
+for id in $SEEDS; do
+  d=seeded/$id/
   [ -f $d/patch.diff ] || continue
   props=$(python3 -c "
 import json,sys
@@ -18,7 +21,7 @@ seen=[]
 for p in ps:
     if p and p not in seen: seen.append(p)
 print(' '.join(seen))")
-  git -C /repo apply "$(realpath $d/patch.diff)" 2>/dev/null || { echo "| $id | - | patch does not apply |" >> $OUT; continue; }
+  git -C $REPO apply "$(realpath $d/patch.diff)" 2>/dev/null || { echo "| $id | - | patch does not apply |" >> $OUT; continue; }
   for p in $props; do
     ./check $p > /tmp/matrix.out 2>&1
     if grep -q "^VIOLATION.*no-failing-input-found" /tmp/matrix.out; then o="VIOLATION, no-failing-input-found";
@@ -26,6 +29,6 @@ print(' '.join(seen))")
     elif grep -q "^\[$p\]" /tmp/matrix.out; then o="quiet"; else o="check did not run ($(tail -1 /tmp/matrix.out | cut -c1-80))"; fi
     echo "| $id | $p | $o |" >> $OUT
   done
-  git -C /repo checkout -- .
+  git -C $REPO checkout -- .
 done
-git -C /repo status --short >> $OUT
+git -C $REPO status --short >> $OUT
